@@ -308,7 +308,7 @@ class Fn6(Fn):
                 return V.opaque()
             def rows(v):
                 return v.ty == LIST(VEC3) or (v.items is not None and len(gen_code.shape_of(v)) == 2 and gen_code.shape_of(v)[1] == 3)
-            if a.ty == VEC3 and a.items is None and rows(b):
+            if a.ty == VEC3 and (a.items is None or gen_code._atomic(a.term)) and rows(b):   # a named 3-vector (since batch 5 a loop variable of type Vec3 is a static array WITH a name)
                 b = self.coerce(node, b, LIST(VEC3))
                 binds, refs = _join(a, b)
                 return V("(Py6.vecAddRows %s %s)" % (a.term, b.term), LIST(VEC3), binds, refs)
